@@ -78,6 +78,9 @@ func (p *ProviderData) Redeem(ctx context.Context, redirectURL, code, codeVerifi
 	if result.Error() != nil {
 		return nil, result.Error()
 	}
+	if result.StatusCode() != 200 {
+		return nil, fmt.Errorf("got %d from %q %s", result.StatusCode(), p.RedeemURL.String(), result.Body())
+	}
 
 	// blindly try json and x-www-form-urlencoded
 	var jsonResponse struct {
